@@ -17,6 +17,21 @@ func C11(c *Ctx) {
 	r.Explanation = "Static invariants of ClientStateResponseWriter, which hold for every handler program because handlers can only act through these methods: (1) in WriteHeader and Write the call on the embedded writer is preceded, on every path, by the hasWritten==true edge or by a putClientState() call whose error is not dropped (no condition on the bytes written or the status code); (2) every putClientState call site is dominated by hasWritten==false, and inside putClientState the store hasWritten=true dominates every WriteState call and every return (re-entrancy through WriteState(c,…) and error paths included); (3) family pairing: the session store receives the session state and session queue, the cookie store the cookie ones; setState appends to the queue selected by the context key its callers pass, Put/Del/DelAll{Session,Cookie} pass their own family's key, getState/LoadClientState use the matching key and field; (4) the queues are written only by setState, by append on the same field, and are handed to WriteState unmodified; (5) the request-scoped state keys are installed only by LoadClientState and the expiry middleware; (6) MustClientStateResponseWriter unwraps *ClientStateResponseWriter, UnderlyingResponseWriter and Unwrap() wrappers and panics otherwise."
 	r.NotDecided = []string{"behaviour after Hijack, and of http.ResponseController methods reaching the embedded writer through Unwrap()", "the integrator's ClientStateReadWriter"}
 	put := c.P.Func("(*ab.ClientStateResponseWriter).putClientState")
+	flushers := map[string]bool{}
+	// the latch lives in the writer object the handler chain shares: a method
+	// that flushes must act on that object, not on a copy of it
+	sharedWriter := func(v ssa.Value) bool {
+		for {
+			switch x := v.(type) {
+			case *ssa.FieldAddr:
+				v = x.X
+				continue
+			case *ssa.Alloc:
+				return false
+			}
+			return true
+		}
+	}
 
 	// (1) flush before any underlying write
 	for _, m := range []struct{ fn, under string }{
@@ -25,6 +40,7 @@ func C11(c *Ctx) {
 	} {
 		fn := c.P.Func(m.fn)
 		name := FuncName(fn)
+		flushers[name] = true
 		unders := CallsTo(fn, m.under)
 		if len(unders) == 0 {
 			r.Bad("C11.flush-first", name, "underlying write", "-", "method does not reach the embedded writer")
@@ -84,7 +100,10 @@ func C11(c *Ctx) {
 	// all other call sites of putClientState
 	for _, call := range c.Callers(put) {
 		fnm := fname(call)
-		if fnm == "(*ab.ClientStateResponseWriter).WriteHeader" || fnm == "(*ab.ClientStateResponseWriter).Write" {
+		if args := call.Common().Args; len(args) > 0 {
+			r.Check(sharedWriter(args[0]), "C11.flag-shared", fnm, "putClientState() receiver", posf(c, call), "flush acts on the shared writer", "the flush is performed on a local copy of the ClientStateResponseWriter (value receiver or struct copy): hasWritten is latched on the copy, so the next Write/WriteHeader on the shared writer flushes the queued changes again")
+		}
+		if flushers[fnm] {
 			continue
 		}
 		okG := HasFact(FactsAtInstr(call.(ssa.Instruction)), func(f Fact) bool {
@@ -106,6 +125,9 @@ func C11(c *Ctx) {
 			fa, ok := st.Addr.(*ssa.FieldAddr)
 			if !ok || fieldName(fa) != "hasWritten" {
 				continue
+			}
+			if !sharedWriter(fa.X) {
+				r.Bad("C11.flag-shared", pn, "hasWritten store", posf(c, st), "hasWritten is stored into a local copy of the writer (value receiver): the latch is lost when putClientState returns")
 			}
 			if v, isC := ConstBool(st.Val); isC && v {
 				if setTrue == nil {
